@@ -4,7 +4,7 @@
 From Coq Require Import String List Bool.
 From SX Require Import Gen.Skeletons.
 Import ListNotations.
-Open Scope string_scope.
+Local Open Scope string_scope.
 
 Fixpoint strs_eqb (a b : list string) : bool :=
   match a, b with
